@@ -16,9 +16,9 @@ import (
 // some number of operands, columns, terms or operators on is still evaluated.
 
 func wideSizes(thorough bool) []int {
-	s := []int{1, 2, 3, 4, 5, 6, 7, 8, 9, 10, 11, 12, 13, 15, 16, 17, 20, 24, 31, 32, 33, 48, 63, 64, 65}
+	s := []int{1, 2, 3, 4, 5, 6, 7, 8, 9, 10, 11, 12, 13, 15, 16, 17, 20, 24, 31, 32, 33, 48, 63, 64, 65, 100, 101, 129}
 	if thorough {
-		s = append(s, 100, 127, 128, 129, 200, 255, 256, 257)
+		s = append(s, 127, 128, 200, 255, 256, 257, 511, 512, 513)
 	}
 	return s
 }
@@ -86,6 +86,23 @@ func wideExprFamilies() []wideExpr {
 				s += " " + ops[i%len(ops)] + " " + []string{"nb", "nc", "2", "na"}[i%4]
 			}
 			return s
+		}, 0, nil},
+		wideExpr{"mixed-additive", func(k int) string {
+			s := "na"
+			for i := 0; i < k; i++ {
+				s += " " + []string{"-", "+", "-", "-", "+"}[i%5] + " " + strings.ReplaceAll([]string{"nb", "#", "nc", "na"}[i%4], "#", fmt.Sprint(i))
+			}
+			return s
+		}, 0, nil},
+		wideExpr{"mixed-multiplicative", func(k int) string {
+			s := "na"
+			for i := 0; i < k; i++ {
+				s += " " + []string{"*", "/", "*", "%", "/"}[i%5] + " " + []string{"nb", "2", "nc", "3"}[i%4]
+			}
+			return s
+		}, 0, nil},
+		wideExpr{"mixed-comparisons-in-and", func(k int) string {
+			return cycle([]string{"na < #", "nb >= nc", "na != nb", "nc == #", "nb <= na", "na > nc"}, k, " and ")
 		}, 0, nil},
 		wideExpr{"mixed-bool", func(k int) string {
 			s := "na > 1"
@@ -368,6 +385,9 @@ func wideJoinFamilies() []wideProg {
 				}
 				return fmt.Sprintf("$right.y + %d >= $left.x + %d", i, i)
 			}, "$left.x != $right.y", ", ") + " | project x, y | sort by x, y"
+		}, 65},
+		{"join-k-conditions-with-and-group", func(k int) string {
+			return "L | join " + kinds[k%3] + "(R) on " + oneHot(k, hotOf(k), func(i int) string { return fmt.Sprintf("$left.k + %d == $right.k + %d", i, i) }, "($left.x <= $right.y and $right.y != 2)", ", ") + ", $left.x > 0 | project x, y | sort by x, y"
 		}, 65},
 		{"join-sequence", func(k int) string {
 			s := "L"
